@@ -156,6 +156,8 @@ func (h *harness) transitionerFor(sc *Scenario) (transitioner.Transitioner, erro
 func (h *harness) run(sc *Scenario) error {
 	h.scn = sc.ID
 	h.cur = fakeocc.NewDevice(sc.Kind, sc.Dev0, sc.Strict, sc.Outs)
+	// every third scenario: the device's transport-level failures carry a status code and no text
+	h.cur.BareErrors = sc.ID%3 == 0
 	if h.srv != nil {
 		h.srv.SetDevice(h.cur)
 	}
